@@ -9,8 +9,10 @@ MANIFEST = dict(
     text="Lean theorems over a model of batch_evaluate_function / array_split_chunksize / np.array_split for every "
          "length, chunk size and pool size (concat∘split = id, chunk length ≤ chunksize, batchEval = map f, every point "
          "handed to the user function exactly once in order, counter += n once); model tied to the code by an exhaustive-grid "
-         "correspondence against the real functions and Model.batch_evaluate_* (physical and unit-hypercube mode) with a "
-         "fake order-preserving pool (real fork pools in the thorough tier).",
+         "correspondence against the real functions and Model.batch_evaluate_log_likelihood / _log_prior / "
+         "_log_prior_unit_hypercube (physical and unit-hypercube mode, parallelise_prior on/off, distinct exactly rounded "
+         "likelihood / prior / hypercube-prior functions so that a mixed-up wrapper is visible) with a fake order-preserving "
+         "pool (real fork pools in the thorough tier).",
     note="Assumed: Pool.map preserves order; the user function is batch-consistent.",
     technique="Lean 4 proof (induction over lists) + differential correspondence with the real functions",
     ref="5/C10")
